@@ -3,7 +3,7 @@
 (* The twenty properties C01..C20 as predicates over explicit state        *)
 (* records; dispatch for the trace spec (CheckStepP) and accumulators.     *)
 (***************************************************************************)
-EXTENDS PropsPanic, PropsAdmin, PropsAuth
+EXTENDS PropsPanic, PropsTx, PropsAuth
 
 Acc0 == [c15 |-> C15Acc0, c02 |-> C02Acc0, c07 |-> C07Acc0, c12 |-> C12Acc0]
 AccNext(acc, pre, e, post) ==
@@ -32,4 +32,6 @@ CheckStepP(want, pre, e, post, acc, line) ==
   /\ (want["C08"]) => C08(pre, e, post, line)
   /\ (want["C12"]) => C12(pre, e, post, acc.c12, line)
   /\ (want["C19"]) => C19(pre, e, post, line)
+  /\ (want["C10"]) => C10(pre, e, post, line)
+  /\ (want["C11"]) => C11(pre, e, post, line)
 =============================================================================
